@@ -97,6 +97,8 @@ type Exec struct {
 	boxes            map[string]boxed
 	realFloats       bool
 	stubsUsed        map[string]bool
+	closedHeap       bool            // pragma closedheap yes
+	closedDone       map[string]bool
 	anchorArgTypes   []types.Type // static types of the arguments of the anchor being fired (send)
 	abstracted       map[string]bool // calls over-approximated under `pragma unknowncalls havoc`
 	inlined          map[string]bool
@@ -144,7 +146,7 @@ type boxed struct {
 func NewExec(ld *Loader, specs *Specs, fnKey string) *Exec {
 	return &Exec{ld: ld, vc: NewVC(fnKey), specs: specs, heap0: map[string]Term{}, heapSort: map[string]Sort{},
 		strs: map[string]Term{}, strNames: map[string]string{}, floats: map[string]Term{}, floatNames: map[string]string{},
-		cellRefs: map[cellKey]Term{}, boxes: map[string]boxed{}, stubsUsed: map[string]bool{}, abstracted: map[string]bool{}, inlined: map[string]bool{},
+		cellRefs: map[cellKey]Term{}, boxes: map[string]boxed{}, stubsUsed: map[string]bool{}, abstracted: map[string]bool{}, closedDone: map[string]bool{}, inlined: map[string]bool{},
 		calleesUsed: map[string]bool{}, declSpec: map[string]bool{}, paramVals: map[string]Value{},
 		lemmasUsed: map[string]bool{}, ranges: map[*ssa.Range]*rangeState{}, selectIdx: map[*ssa.Select]Term{}, loopWritesHeap: map[string]map[string]bool{}}
 }
@@ -171,7 +173,51 @@ func (ex *Exec) heapGet(key string, sort Sort) Term {
 	t := Term{name, sort}
 	ex.heap0[key] = t
 	ex.heapSort[key] = sort
+	ex.ghostZeroAxiom(key, name, sort)
 	return t
+}
+
+// ghostZeroAxiom (`pragma closedheap yes`): ghost fields of objects that do not exist yet have their zero value.
+func (ex *Exec) ghostZeroAxiom(key, name string, sort Sort) {
+	if !ex.closedHeap || !strings.HasPrefix(key, "ghost<") || ex.alloc0.S == "" {
+		return
+	}
+	zero := ""
+	switch sort {
+	case ArrSort(SInt, SBool):
+		zero = "false"
+	case ArrSort(SInt, SInt):
+		zero = "0"
+	}
+	if zero == "" {
+		return
+	}
+	ex.vc.fresh++
+	r := fmt.Sprintf("r!g%d", ex.vc.fresh)
+	ex.vc.AssumeRaw(fmt.Sprintf("(forall ((%s Int)) (! (=> (>= %s %s) (= (select %s %s) %s)) :pattern ((select %s %s))))", r, r, ex.alloc0.S, name, r, zero, name, r), "ghost state of unallocated objects is zero: "+key)
+}
+
+// closedEntryHeap (`pragma closedheap yes`, needed when a contract quantifies over all objects of a type):
+// the heap at entry is closed - a pointer/map/chan-valued field of an object that existed at entry
+// refers to memory that existed at entry (Go has no pointers to unallocated memory). Stated once per field.
+func (ex *Exec) closedEntryHeap(key string, l leaf) {
+	if !ex.closedHeap || ex.closedDone[key] || l.typ == nil || l.sort != SInt || ex.alloc0.S == "" {
+		return
+	}
+	switch l.typ.Underlying().(type) {
+	case *types.Pointer, *types.Map, *types.Chan:
+	default:
+		return
+	}
+	h0, ok := ex.heap0[key]
+	if !ok {
+		return
+	}
+	ex.closedDone[key] = true
+	ex.vc.fresh++
+	r := fmt.Sprintf("r!c%d", ex.vc.fresh)
+	ex.vc.AssumeRaw(fmt.Sprintf("(forall ((%s Int)) (! (=> (and (<= 0 %s) (< %s %s)) (and (<= 0 (select %s %s)) (< (select %s %s) %s))) :pattern ((select %s %s))))",
+		r, r, r, ex.alloc0.S, h0.S, r, h0.S, r, ex.alloc0.S, h0.S, r), "entry heap is closed: "+key)
 }
 
 func (ex *Exec) heapGetIn(st *State, key string, sort Sort) Term {
@@ -392,6 +438,7 @@ func (ex *Exec) loadIn(st *State, p PtrV) Value {
 			case pObj:
 				h = ex.heapGetIn(st, base+l.path, ArrSort(SInt, ls))
 				v = Sel(h, p.Ref)
+				ex.closedEntryHeap(base+l.path, l)
 			case pElem:
 				h = ex.heapGetIn(st, base+l.path, ArrSort(SInt, ArrSort(SInt, ls)))
 				v = Sel(Sel(h, p.Ref), p.Idx)
